@@ -9,7 +9,8 @@ GEN_DEPENDS = ["C16Alphabets"]
 RULE = ("random fully bifurcating trees (2-9 leaves quick, up to 14 thorough; random taxon->leaf assignment, namespaces larger than the "
         "leaf set) x histories of 1-5 scoring calls on one tree object and its clones (Tree.clone(1), Tree(tree)), each call with its own "
         "matrix (DNA/RNA with IUPAC ambiguity codes, protein with B/Z/X, 10-state standard; '?', '-', lower case and synonyms; 1-6 characters), "
-        "gaps_as_missing both ways, weights None or 0..3 per character, entry point parsimony_score / treescore.parsimony_score / "
+        "gaps_as_missing both ways, weights None or 0..3 per character (12% of weighted calls: a list that is longer or shorter than the "
+        "matrix), entry point parsimony_score / treescore.parsimony_score / "
         "fitch_down_pass with and without node attributes; matrix objects that live across calls and are edited in place between them "
         "(single cells via seq[i]=/set_at, whole sequences of equal length) and re-scored on the same, cloned and fresh tree objects in both "
         "gap modes, judged on their current content; re-rooted (every sequence of root slides) and child-shuffled copies; a malformed "
@@ -23,18 +24,19 @@ MODELLED_NOT_VERIFIED = [
     "harness/gen/c16alphabets.py, only the symbol tables are extracted from charstatemodel.py; the rules are tied to the code by the `sets` "
     "comparison of every generated row with the real taxon_state_sets_map",
     "C16: fitch_up_pass is outside the statement and is not modelled; weights are natural numbers (negative weights have no minimum reading); "
-    "post-order iteration is taken from C15",
+    "post-order iteration is taken from C15; which exception class a call outside the statement raises is not compared (only that it raises)",
 ]
-EXPLANATION = ("Theorems about the functions the driver runs (parsimony = runNodes/stepNode/foldKids/pairLoop over the post-order with "
-               "the node-attribute store), all at full strength for fully bifurcating trees (binary root): score_spec (the call succeeds "
-               "whatever attributes the nodes carried; entry c of the per-character list = weight x Fitch count of character c; score = "
-               "their sum), score_minimal (no family of per-character assignments of states to all nodes costs less than the score, and one "
-               "costs exactly the score), bychar_sum, history_independent (any stored attributes vs a fresh copy), "
-               "history_results_independent (whole histories of calls and clonings), child_order_independent, root_position_independent "
-               "(every sequence of root slides = every edge as root position). Hypotheses: View (bifurcating, every leaf taxon has a row), "
-               "RectM (rows of one length, no empty state set), distinct node identities, one weight per character. No _partial theorem. "
-               "Not covered by theorems, covered by oracle + correspondence: the basal-trifurcation form of unrooted trees; the construction "
-               "of state sets from symbols (tables extracted, rules compared per row).")
+EXPLANATION = ("Theorems about the functions the driver runs (parsimony = runNodes/stepNode/foldKids/pairLoop/shortHit over the post-order with "
+               "the node-attribute store; reroot; runHist; rowOfSymbols). Refinement for EVERY input: result_independent_of_attrs (any tree "
+               "with distinct nodes - polytomies, unary nodes, missing rows, any weight list: exception or (score, per-character list) does "
+               "not depend on stored attributes; via run_T: the machine equals the plain recursion accT) and history_eq_fresh (every call of "
+               "every history, failing calls included, returns what a fresh copy returns). For fully bifurcating trees with a binary root "
+               "or a basal trifurcation (ViewU): score_spec, score_minimal (minimum over all families of assignments), "
+               "score_minimal_unrooted (assignments of the trifurcating tree itself), bychar_sum, history_independent. "
+               "child_order_independent; root_position_independent (every sequence of root slides) + reroot_reaches_every_edge (every edge is "
+               "reached). table_ok / table_nonzero / rowOfSymbols_nonzero: the generated symbol tables never denote an empty set, "
+               "gaps-as-missing removes exactly the gap state, every driver-built matrix satisfies the theorems' RectM. No _partial theorem. "
+               "Hypotheses: distinct node identities; for the value theorems ViewU, RectM (rows of one length), one weight per character.")
 
 # ------------------------------------------------------------------ independent state-set semantics (the oracle's own tables)
 IUPAC = {"A": "A", "C": "C", "G": "G", "T": "T", "R": "AG", "Y": "CT", "M": "AC", "W": "AT", "S": "CG", "K": "GT",
@@ -53,6 +55,14 @@ def _mk_oracle_tables():
     rna["U"] = frozenset("U")
     rna["u"] = frozenset("U")
     ORACLE_ALPHABETS["rna"] = ("ACGU", rna)
+    nuc = {"A": "A", "C": "C", "G": "G", "T": "T", "U": "U", "R": "AG", "Y": "CTU", "M": "AC", "W": "ATU", "S": "CG", "K": "GTU",
+           "V": "ACG", "H": "ACTU", "D": "AGTU", "B": "CGTU", "N": "ACGTU"}
+    nt = {}
+    for k, v in nuc.items():
+        nt[k] = frozenset(v)
+        nt[k.lower()] = frozenset(v)
+    nt["X"] = frozenset("ACGTU")
+    ORACLE_ALPHABETS["nucleotide"] = ("ACGTU", nt)
     aa = "ACDEFGHIKLMNPQRSTVWY*"
     prot = {}
     for c in aa:
@@ -267,7 +277,9 @@ def expected(nd, call):
     if any(l[1] is None or l[1] not in rows for l in leaves):
         return None
     nchar = len(call["rows"][0][1])
-    ws = call["weights"] or [1] * nchar
+    if call["weights"] is not None and len(call["weights"]) < nchar:
+        return None      # fewer weights than characters: no reading of "the given weights" (the code raises when it needs one)
+    ws = (call["weights"] or [1] * nchar)[:nchar]
     per = []
     for c in range(nchar):
         ls = {l[0]: oracle_set(call["alph"], call["gaps"], rows[l[1]][c]) for l in leaves}
@@ -298,11 +310,14 @@ def build_matrix(dendropy, tns, call):
 
 
 def exc_name(e):
-    if isinstance(e, KeyError):
-        return "KeyError"
-    if isinstance(e, ValueError):
-        return "ValueError"
-    return "Internal(%s)" % type(e).__name__
+    """every refusal is one class: which exception a call outside the statement's domain raises (unary node, leaf without a
+    row, weight list too short) is an accident of the code, not part of the property"""
+    return "Error"
+
+
+def canon_model(text):
+    return " | ".join("Error" if r.strip() in ("KeyError", "ValueError", "IndexError", "AttributeError") else r.strip()
+                      for r in text.split("|"))
 
 
 def apply_edit(dendropy, tns, m, op):
@@ -337,7 +352,7 @@ def impl_call(dendropy, tree, tns, call, m=None):
             kw = {} if via == "down" else {"state_sets_attr_name": None if via == "down_noattr" else "c16_sets"}
             s = parsimony.fitch_down_pass(tree.postorder_node_iter(), taxon_state_sets_map=tsm, weights=ws,
                                           score_by_character_list=by, **kw)
-    except (KeyError, ValueError, AttributeError, TypeError, IndexError, AssertionError) as e:
+    except Exception as e:
         return exc_name(e), m
     return "ok %d %s" % (s, ",".join(str(x) for x in by) if by else "-"), m
 
@@ -351,7 +366,7 @@ def op_line(op):
         return "C %d" % op["obj"]
     if op["op"] == "E":
         return "E %s %s %s %s %s" % (op["mat"], op["how"], op["bit"], op.get("idx", "-"), op.get("sym", op.get("syms")))
-    w = "-" if op["weights"] is None else ",".join(str(x) for x in op["weights"])
+    w = "-" if op["weights"] is None else (",".join(str(x) for x in op["weights"]) or ".")
     rows = " ".join("%d =%s" % (bit, syms) for bit, syms in op["rows"])
     return "S %d %s %d %s %s" % (op["obj"], op["alph"], 1 if op["gaps"] else 0, w, rows)
 
@@ -500,6 +515,8 @@ def flush(ctx, pending):
         if m is None:
             continue
         ctx.compared()
+        if opname == "hist":
+            m = canon_model(m)
         if m.strip() != got.strip():
             ctx.disagree(opname, case if opname == "hist" else {"line": line}, got, m)
     del pending[:]
@@ -535,7 +552,7 @@ def gen_symbols(rng, alph, nleaves, nchar):
 
 
 def gen_call(rng, bits, obj, extra_bits=()):
-    alph = rng.choice(["dna", "dna", "dna", "standard", "standard", "rna", "protein"])
+    alph = rng.choice(["dna", "dna", "dna", "standard", "standard", "rna", "protein", "nucleotide"])
     nchar = rng.choice([1, 1, 2, 3, 4, 4, 5, 6])
     allbits = list(bits) + list(extra_bits)
     syms = gen_symbols(rng, alph, len(allbits), nchar)
@@ -543,6 +560,9 @@ def gen_call(rng, bits, obj, extra_bits=()):
     rng.shuffle(order)
     rows = [[allbits[i], syms[i]] for i in order]
     weights = None if rng.random() < 0.5 else [rng.choice([0, 1, 1, 2, 3]) for _ in range(nchar)]
+    if weights is not None and rng.random() < 0.12:
+        # a weight list of another length: longer (extra entries unused) or shorter (refused only when a character past its end changes)
+        weights = (weights + [rng.randint(0, 3) for _ in range(rng.randint(1, 2))]) if rng.random() < 0.5 else weights[:rng.randrange(nchar)]
     return {"op": "S", "obj": obj, "alph": alph, "gaps": rng.random() < 0.5, "weights": weights, "rows": rows,
             "via": rng.choice(["parsimony", "parsimony", "parsimony", "treescore", "down", "down_noattr", "down_other"])}
 
@@ -704,7 +724,6 @@ def alphabet_sweep(ctx, dendropy, alph, pending):
     ctx.case(["sweep", alph], False, kind="alphabet sweep")
     syms = "".join(accepted)
     m = build_matrix(dendropy, tns, {"alph": alph, "rows": [[0, syms]]})
-    sa = m.default_state_alphabet
     for gaps in (True, False):
         tsm = m.taxon_state_sets_map(gaps_as_missing=gaps)
         row = tsm[tns[0]]
@@ -712,8 +731,18 @@ def alphabet_sweep(ctx, dendropy, alph, pending):
                         " ".join(str(mask_of(x)) for x in row), "sets"))
         if alph in ORACLE_ALPHABETS:
             known = set(ORACLE_ALPHABETS[alph][1]) | {"?", "-"}
+            # index -> state name, read off the map itself: each fundamental symbol (and the gap when it is a state) must be
+            # handed over as a singleton, all different (no use of the library's own index -> state table)
+            name_of = {}
             for ch, st in zip(syms, row):
-                names = frozenset(GAP if sa[i].symbol == "-" else sa[i].symbol for i in st)
+                if ch in ORACLE_ALPHABETS[alph][0] or (ch == "-" and not gaps):
+                    if len(st) != 1 or next(iter(st)) in name_of:
+                        ctx.fail("state_sets", "%s symbol %r with gaps_as_missing=%s is not handed over as a state of its own: %s" % (
+                            alph, ch, gaps, sorted(st)), {"sweep": alph})
+                    else:
+                        name_of[next(iter(st))] = GAP if ch == "-" else ch
+            for ch, st in zip(syms, row):
+                names = frozenset(name_of.get(i, "#%d" % i) for i in st)
                 if ch not in known:
                     ctx.fail("state_sets", "%s matrix accepts symbol %r, which the %s code does not define" % (alph, ch, alph),
                              {"sweep": alph})
